@@ -128,6 +128,30 @@ def _explore_worker(args):
                                                         kinds=dict(stats['kinds'])), err=err)
 
 
+def apalache_obligations(scratch):
+    """Unbounded-in-events argument for the design: an inductive invariant of Server.tla (spec/MC_Server.tla)
+    discharged by Apalache - Init => IndInv, IndInv /\\ Next => IndInv', IndInv => NoLostEvent /\\ MarkerCleared - for 3
+    request threads, 2 keys, ANY number of remaining events and any queue content up to length 4.  Not load-bearing for
+    the verdict (that comes from the real executions); a failed obligation is reported as a design-level lead."""
+    import subprocess
+    obl = [('Init => IndInv', ['--init=Init', '--inv=IndInv', '--length=0']),
+           ("IndInv /\\ Next => IndInv'", ['--init=IndInit', '--inv=IndInv', '--length=1']),
+           ('IndInv => NoLostEvent /\\ MarkerCleared', ['--init=IndInit', '--inv=Safety', '--length=0'])]
+    res = []
+    for name, args in obl:
+        try:
+            p = subprocess.run(['apalache-mc', 'check'] + args + ['--out-dir=' + os.path.join(scratch, 'apalache'),
+                                                                  'MC_Server.tla'],
+                               cwd=tlc.SPEC_DIR, stdout=subprocess.PIPE, stderr=subprocess.STDOUT,
+                               universal_newlines=True, timeout=600,
+                               env=dict(os.environ, TMPDIR=scratch, JVM_ARGS='-Djava.io.tmpdir=' + scratch))
+            ok = 'The outcome is: NoError' in p.stdout
+            res.append(dict(obligation=name, discharged=ok, tail='' if ok else p.stdout[-400:]))
+        except Exception as e:                                  # noqa
+            res.append(dict(obligation=name, discharged=False, tail='apalache did not run: %r' % (e,)))
+    return res
+
+
 def launcher_test():
     """The REAL worker loop of the server (bert_e.server.setup_bert_e starts it in a daemon thread) fed with one job
     per kind of outcome - including exceptions with an empty message, bare assertion failures, KeyError() - followed by
@@ -235,6 +259,10 @@ def check(tier, seed):
                            violated=r['violated']))
             if not r['ok']:
                 print('MODEL-LEAD: TLC reports %s on %s' % (r['violated'], c))
+        apa = apalache_obligations(scratch)
+        for a in apa:
+            if not a['discharged']:
+                print('MODEL-LEAD: Apalache did not discharge `%s` (%s)' % (a['obligation'], a['tail'][-200:]))
         bound, limit = (2, 700) if tier == 'quick' else (3, 6000)
         jobs = []
         tid0 = 0
@@ -312,7 +340,9 @@ def check(tier, seed):
         rule='all schedules with <= %d preemptions (cut at %d executions per scenario) of the real put_job / '
              'process_task at source-line granularity, %d scenarios x outcome rotations; distinct = event kinds observed'
              % (bound, limit, len(SCENARIOS[tier])),
-        model_checking=mc, scheduler_steps=steps, real_worker_loop_outcomes=13, event_kinds=dict(kinds), conformance_divergences=len(div),
+        model_checking=mc, scheduler_steps=steps, real_worker_loop_outcomes=13,
+        inductive_invariant=dict(tool='apalache-mc 0.58', module='spec/MC_Server.tla', obligations=len(apa),
+                                 discharged=sum(1 for a in apa if a['discharged']), detail=apa), event_kinds=dict(kinds), conformance_divergences=len(div),
         exhaustive=False,
         explanation='Server.tla exhaustive (TLC); real executions validated by TraceServer.tla'),
         ['CPython line events are the scheduling points (a line is atomic here; the GIL could in principle switch inside '
